@@ -1632,7 +1632,8 @@ class RlWriter:
     def _fix_broken_images(self, _, img_path):
         if img_path in self.fixed_images:
             return self.fixed_images[img_path]
-        self.fixed_images[img_path] = -1
+        key = img_path  # the verdict is looked up under the path as it was passed in
+        self.fixed_images[key] = -1
         img_path = str(img_path, 'utf-8')
 
         try:
@@ -1702,7 +1703,7 @@ class RlWriter:
         except:
             log.warning("image can not be opened by PIL: %r" % img_path)
             raise
-        self.fixed_images[img_path] = 0
+        self.fixed_images[key] = 0
         return 0
 
     def set_svg_default_size(self, img_node):
